@@ -1652,6 +1652,44 @@ func init() {
 		}
 		return "ok"
 	})
+	registerEval("unread", func(a []string) string {
+		// unread <limit> <fen6>: a caller of the iterative harness that asks by Halt only and never reads the report channel: the
+		// search still runs to its limit (an unread report is replaced by the next one), Halt returns the last completed iteration
+		// and the channel is closed afterwards
+		limit, _ := strconv.Atoi(a[0])
+		p, turn, np, fm, err := fen.Decode(strings.Join(a[1:], " "))
+		if err != nil {
+			return "err"
+		}
+		b := board.NewBoard(zobrist(0), p, turn, np, fm)
+		reached := make(chan struct{})
+		var once sync.Once
+		root := notifySearch{inner: search.AlphaBeta{Eval: search.Leaf{Eval: eval.Material{}}}, at: limit, fn: func() { once.Do(func() { close(reached) }) }}
+		it := &searchctl.Iterative{Root: root}
+		h, out := it.Launch(context.Background(), b, search.NoTranspositionTable{}, eval.Random{}, searchctl.Options{DepthLimit: lang.Some(uint(limit))})
+		select {
+		case <-reached:
+		case <-time.After(20 * time.Second * loadScale()):
+			pv := h.Halt()
+			return fmt.Sprintf("MISMATCH with nobody reading the reports the search never completed depth %d (Halt returns depth %d)", limit, pv.Depth)
+		}
+		time.Sleep(200 * time.Millisecond * loadScale())
+		pv := h.Halt()
+		if pv.Depth != limit && !mateWithin(pv.Score, pv.Depth) {
+			return fmt.Sprintf("MISMATCH Halt returns depth %d, depth %d had been completed", pv.Depth, limit)
+		}
+		deadline := time.After(10 * time.Second * loadScale())
+		for {
+			select {
+			case _, ok := <-out:
+				if !ok {
+					return "ok"
+				}
+			case <-deadline:
+				return "MISMATCH the report channel is not closed after the search ended and was halted"
+			}
+		}
+	})
 	registerEval("supersede", func(a []string) string {
 		// supersede <kind> <n> <depth> <moveA> <moveB>: n times on a fresh engine (wired as the binaries wire it: ONE search
 		// object per engine): play moveA, start a deep analysis and supersede it at once (Halt, play moveB, analyse at <depth>) -
@@ -1687,8 +1725,9 @@ func init() {
 				return engine.New(ctx, "plain", "x", s, engine.WithOptions(engine.Options{}))
 			}
 		}
+		same := a[4] == "same" // the superseding search starts from the SAME position (go, stop, go): nothing is played in between
 		solo := newE()
-		if solo.Move(ctx, a[3]) != nil || solo.Move(ctx, a[4]) != nil {
+		if solo.Move(ctx, a[3]) != nil || (!same && solo.Move(ctx, a[4]) != nil) {
 			return "err-move"
 		}
 		out, err := solo.Analyze(ctx, searchctl.Options{DepthLimit: lang.Some(uint(depth))})
@@ -1708,7 +1747,9 @@ func init() {
 				}
 			}()
 			e.Halt(ctx)
-			e.Move(ctx, a[4])
+			if !same {
+				e.Move(ctx, a[4])
+			}
 			outB, err := e.Analyze(ctx, searchctl.Options{DepthLimit: lang.Some(uint(depth))})
 			if err != nil {
 				return "err-analyze"
@@ -1861,7 +1902,7 @@ func init() {
 		if thorough {
 			sn = 2500
 		}
-		for _, sc := range []string{"sargon %d 2 e2e4 e7e5", "sargon %d 2 d2d4 g8f6", "turochamp %d 1 e2e4 e7e5", "bernstein %d 2 e2e4 e7e5", "plain %d 3 e2e4 d7d5"} {
+		for _, sc := range []string{"sargon %d 2 e2e4 same", "turochamp %d 1 d2d4 same", "sargon %d 2 e2e4 e7e5", "sargon %d 2 d2d4 g8f6", "turochamp %d 1 e2e4 e7e5", "bernstein %d 2 e2e4 e7e5", "plain %d 3 e2e4 d7d5"} {
 			k := sn
 			if !strings.HasPrefix(sc, "sargon") {
 				k = sn / 5
@@ -2131,4 +2172,19 @@ func init() {
 		o.do("published book sargon")
 		o.do("published book bernstein")
 	})
+}
+
+// notifySearch calls fn when a search of depth `at` has returned.
+type notifySearch struct {
+	inner search.Search
+	at    int
+	fn    func()
+}
+
+func (n notifySearch) Search(ctx context.Context, sctx *search.Context, b *board.Board, depth int) (uint64, eval.Score, []board.Move, error) {
+	nodes, sc, pv, err := n.inner.Search(ctx, sctx, b, depth)
+	if depth >= n.at && err == nil {
+		n.fn()
+	}
+	return nodes, sc, pv, err
 }
